@@ -328,42 +328,41 @@ impl NetflowParser {
     ///
     #[inline]
     pub fn parse_bytes(&mut self, packet: &[u8]) -> Vec<NetflowPacket> {
-        if packet.is_empty() {
-            return vec![];
+        let mut results = vec![];
+        let mut packet = packet;
+
+        // One iteration per chained packet; a loop rather than recursion so that a buffer
+        // packed with minimal packets cannot exhaust the stack.
+        while !packet.is_empty() {
+            match self.parse_packet_by_version(packet) {
+                Ok(parsed_netflow) => {
+                    let consumed = packet
+                        .len()
+                        .saturating_sub(parsed_netflow.remaining.len());
+                    results.push(parsed_netflow.result);
+                    if consumed == 0 {
+                        break;
+                    }
+                    packet = &packet[consumed..];
+                }
+                Err(e) => {
+                    match e {
+                        NetflowParseError::Incomplete(_)
+                        | NetflowParseError::Partial(_)
+                        | NetflowParseError::UnknownVersion(_) => {
+                            results.push(NetflowPacket::Error(NetflowPacketError {
+                                error: e,
+                                remaining: packet.to_vec(),
+                            }));
+                        }
+                        NetflowParseError::UnallowedVersion(_) => {}
+                    }
+                    break;
+                }
+            }
         }
 
-        match self.parse_packet_by_version(packet) {
-            Ok(parsed_netflow) => {
-                let mut results = vec![parsed_netflow.result];
-                if !parsed_netflow.remaining.is_empty() {
-                    results.extend(self.parse_bytes(&parsed_netflow.remaining));
-                }
-                results
-            }
-            Err(e) => match e {
-                NetflowParseError::Incomplete(_) => {
-                    vec![NetflowPacket::Error(NetflowPacketError {
-                        error: e,
-                        remaining: packet.to_vec(),
-                    })]
-                }
-                NetflowParseError::Partial(partial) => {
-                    vec![NetflowPacket::Error(NetflowPacketError {
-                        error: NetflowParseError::Partial(partial),
-                        remaining: packet.to_vec(),
-                    })]
-                }
-                NetflowParseError::UnknownVersion(_) => {
-                    vec![NetflowPacket::Error(NetflowPacketError {
-                        error: e,
-                        remaining: packet.to_vec(),
-                    })]
-                }
-                NetflowParseError::UnallowedVersion(_) => {
-                    vec![]
-                }
-            },
-        }
+        results
     }
 
     /// Takes a Netflow packet slice and returns a vector of Parsed NetflowCommonFlowSet
